@@ -105,7 +105,8 @@ Parts(M) ==
                      ELSE Seg(from, C[c] - 1) \o <<[cp |-> M[C[c]].cp]>> \o Go(C[c] + 1, c + 1)
   IN Go(1, 1)
 
-DescId(p, d) == "p" \o ToString(p) \o "." \o d.op \o "." \o ToString(d.i) \o "." \o ToString(d.a)
+\* the id names the corpus program (not its index): it is the same in every tier / corpus subset
+DescId(p, d) == Corpus[p].name \o "." \o d.op \o "." \o ToString(d.i) \o "." \o ToString(d.a)
 
 MutantCase(p, d) ==
   [id |-> DescId(p, d), gen |-> "mutant", prog |-> Corpus[p].name, p |-> p, op |-> d.op, i |-> d.i, a |-> d.a,
@@ -192,6 +193,6 @@ SkelCase(k, ix) ==
 RandomIdx(n) == [j \in 1..n |-> Pick(TokIdx)]
 
 \* the unmodified corpus program (sanity: the harness sees what the project's own tests see)
-OrigCase(p) == [id |-> "p" \o ToString(p) \o ".orig.0.0", gen |-> "orig", prog |-> Corpus[p].name, p |-> p,
+OrigCase(p) == [id |-> Corpus[p].name \o ".orig.0.0", gen |-> "orig", prog |-> Corpus[p].name, p |-> p,
                 op |-> "orig", i |-> 0, a |-> 0, parts |-> Parts(LexOf(p))]
 =============================================================================
